@@ -157,3 +157,15 @@ Fixpoint assoc_guard (m : list (field * guard)) (f : field) : option guard :=
   | [] => None
   | (k, g) :: r => if String.eqb k f then Some g else assoc_guard r f
   end.
+
+(* ---- package-level aliasing.  The discipline above identifies a lock by (struct type, field); it
+   is blind to two *instances* sharing storage.  The one way the code base can create such sharing
+   without a pointer is a by-value copy of a package-level struct variable that contains maps or
+   slices (config.DefaultConfig).  The scanner lists every such copy site; each must be justified
+   (listed, with its reason, in Conc/GuardMap.v). *)
+Definition pair_eqb (a b : string * string) : bool :=
+  String.eqb (fst a) (fst b) && String.eqb (snd a) (snd b).
+
+Definition sites_justified (justified sites : list (string * string)) : bool :=
+  forallb (fun s => existsb (pair_eqb s) justified) sites.
+
